@@ -1147,9 +1147,17 @@ def _is_enclosed_or_line(
                 lns = _multiline_ftstr_continuation_lns(lines, ln, col, end_ln, end_col)
 
             lns = set(lns)
+            comment_lns = None
 
             for i in range(ln, end_ln):  # set any line that follows a line continuation `\` as a continuation (not normally set by _multiline_str_* functions)
-                if _re_line_end_cont.match(lines[i]):  # not just endswith('\\') because may be comment between implicitly concatenated strings, line continuations inside of strings are already in lns
+                if lines[i].endswith('\\'):  # this is fine whether it is part of string or not, but not if it is the end of a comment between implicitly concatenated strings, and a `#` may be part of a string so ask the tokenizer which lines have comments
+                    if '#' in lines[i]:
+                        if comment_lns is None:
+                            comment_lns = _comment_lns(lines, ln, col, end_ln, end_col)
+
+                        if i in comment_lns:
+                            continue
+
                     lns.add(i + 1)
 
             if (ret := len(lns) == end_ln - ln) or out_lns is None:
@@ -1253,6 +1261,24 @@ def _is_enclosed_or_line(
         return False
 
     return True
+
+
+def _comment_lns(lines: list[str], ln: int, col: int, end_ln: int, end_col: int) -> set[int]:
+    """Return the line numbers in the location of a (possibly implicitly concatenated) string which have a comment on
+    them. A backslash at the end of one of these belongs to the comment and is not a line continuation, and a `#` inside
+    the strings themselves is not a comment, which is why the tokenizer is asked."""
+
+    from tokenize import COMMENT
+
+    lines = lines[ln : end_ln + 1]  # crop to just location, same wrapping as _multiline_str_continuation_lns()
+
+    lines[-1] = lines[-1][:end_col]
+    lines[0] = '(' + lines[0][col:]
+
+    lines.append(')')
+
+    return {token.start[0] - 1 + ln for token in tokenize_tokenize(BytesIO('\n'.join(lines).encode()).readline)
+            if token.type == COMMENT}
 
 
 def _is_enclosed_in_parents(self: fst.FST, field: str | None = None) -> bool:
